@@ -84,6 +84,7 @@ def make_options(adaptive, screening):
     o.adaptive_window = SI(z3.Int("adaptive_window"))
     o.dt_init = SR(R("dt_init"))
     o.dt_max = SR(R("opt_dt_max"))
+    o.solve_time = SR(R("solve_time"))
     o.screening_tolerance = SR(R("screening_tolerance"))
     o.max_iterations_per_step = SI(z3.Int("max_iterations_per_step"))
     o.screening_step_size = SR(R("alpha"))
